@@ -4,6 +4,11 @@
 // scalar and blocked coefficient vectors and max_der = 2
 #include <kernel/assembly/domain_assembler.hpp>
 #include <kernel/assembly/function_integral_jobs.hpp>
+#include <kernel/assembly/basic_assembly_jobs.hpp>
+#include <kernel/assembly/common_operators.hpp>
+#include <kernel/assembly/common_functionals.hpp>
+#include <kernel/lafem/sparse_matrix_csr.hpp>
+#include <kernel/space/lagrange1/element.hpp>
 #include <kernel/analytic/common.hpp>
 #include <kernel/geometry/conformal_mesh.hpp>
 #include <kernel/lafem/dense_vector.hpp>
@@ -53,6 +58,29 @@ template class Assembly::DiscreteFunctionIntegralJob<VectorT, SpaceT, 2>::Task;
 template class Assembly::DiscreteFunctionIntegralJob<VectorBT, SpaceT, 2>::Task;
 template class Assembly::ErrorFunctionIntegralJob<FuncT, VectorT, SpaceT, 2>::Task;
 template class Assembly::CellErrorFunctionIntegralJob<FuncT, VectorT, SpaceT, 2>::Task;
+
+// the scattering tasks of basic_assembly_jobs.hpp (shared-write discipline: E14.shared-writes-in-scatter)
+typedef LAFEM::SparseMatrixCSR<DT, IT> MatrixT;
+typedef Space::Lagrange1::Element<TrafoT> Space1T;
+template class Assembly::LinearFunctionalAssemblyJob<Assembly::Common::ForceFunctional<FuncT>, VectorT, SpaceT>::Task;
+template class Assembly::ForceFunctionalAssemblyJob<FuncT, VectorT, SpaceT>::Task;
+template class Assembly::BilinearOperatorMatrixAssemblyJob1<Assembly::Common::LaplaceOperator, MatrixT, SpaceT>::Task;
+template class Assembly::BilinearOperatorMatrixAssemblyJob2<Assembly::Common::IdentityOperator, MatrixT, SpaceT, Space1T>::Task;
+
+// every interface member the workers call, for every task (members of the CRTP bases are only
+// instantiated when used)
+template<typename Task_> void c17_use_task(Task_& t)
+{
+  t.prepare(Index(0));
+  t.assemble();
+  t.scatter();
+  t.finish();
+  t.combine();
+}
+template void c17_use_task(Assembly::LinearFunctionalAssemblyJob<Assembly::Common::ForceFunctional<FuncT>, VectorT, SpaceT>::Task&);
+template void c17_use_task(Assembly::ForceFunctionalAssemblyJob<FuncT, VectorT, SpaceT>::Task&);
+template void c17_use_task(Assembly::BilinearOperatorMatrixAssemblyJob1<Assembly::Common::LaplaceOperator, MatrixT, SpaceT>::Task&);
+template void c17_use_task(Assembly::BilinearOperatorMatrixAssemblyJob2<Assembly::Common::IdentityOperator, MatrixT, SpaceT, Space1T>::Task&);
 
 // exposes the tasks' compile-time flags as evaluated constants
 template<typename Task_> void c17_red_flags()
